@@ -125,15 +125,16 @@ def run(tier, rep, ev):
     ev.add_tlc(r, "ReadSessionMC")
     base = scratch("c10w")
     ref_cases, py_cases = [], []
-    coders = ["lzma2", "lzma", "copy", "bzip2", "deflate"]
+    coders = ["lzma2", "lzma", "copy", "bzip2", "deflate", "bcj+lzma2", "delta+lzma2", "arm+lzma", "ppc+bzip2", "sparc+deflate", "armt+copy"]
     n = 60 if tier == "quick" else 600
     for i in range(n):
         shape = [_read.A1, _read.A2][i] if i < 2 else _read.random_shape(R, 8)
-        pw = "pw" if i % 4 == 0 else None
+        # every dimension drawn independently (indices tied to one counter hide combinations: password x raw header, ...)
+        pw = "pw" if R.random() < 0.3 else None
         coder = coders[i % len(coders)]
-        methods = sorted({METHOD_NAME[coder]} | ({"7zAES"} if pw else set())) if shape["nfolders"] else []
-        ref_cases.append({"shape": shape, "calls": CALLS, "password": pw, "coder": coder, "header": ["lzma", "raw"][i % 2], "seed": i,
-                          "target": "path" if i % 3 else "stream", "methods": methods, "wd": os.path.join(base, f"r{i}")})
+        methods = sorted({METHOD_NAME[c] for c in coder.split("+")} | ({"7zAES"} if pw else set())) if shape["nfolders"] else []
+        ref_cases.append({"shape": shape, "calls": CALLS, "password": pw, "coder": coder, "header": R.choice(["lzma", "raw"]), "seed": i,
+                          "target": R.choice(["path", "path", "stream"]), "methods": methods, "wd": os.path.join(base, f"r{i}")})
     chains = [([{"id": 0x21, "preset": 1}], ["LZMA2"]), ([{"id": 4}, {"id": 0x21, "preset": 1}], ["BCJ", "LZMA2"]),
               ([{"id": 3, "dist": 4}, {"id": 0x21, "preset": 1}], ["DELTA", "LZMA2"]), ([{"id": 0x31}], ["BZip2"]), ([{"id": 0x32}], ["DEFLATE"]),
               ([{"id": 0x33}], ["COPY"]), ([{"id": 0x35, "level": 1}], ["ZStandard"]), ([{"id": 0x37, "level": 1}], ["Brotli"]),
